@@ -36,6 +36,11 @@ ABS_PARSERS = {
 }
 DRIVER_IMPORTS = ["CnfgenModel.Vars.GenGlue"]
 
+# objects that the translated code only constructs and sends commands to: (constructor arguments, log of commands)
+BUILDERS = {
+    "DirectedGraph": {"ctor": [INT, ERASED], "command": "add_edge", "args": [INT, INT]},
+}
+
 ITEMS = [
     {"file": VARS, "class": "BlockOfVariables", "property": "C11",
      "methods": {
@@ -125,4 +130,8 @@ ITEMS = [
          "__call__": {"params": {"pattern": TList(TOpt(INT))}, "vararg": "pattern"},
          "to_index": {"params": {"lit": INT}},
      }},
+    # ---- C15: closed-form DAG constructions: (number of vertices, the add_edge calls in order)
+    {"file": "cnfgen/graphs.py", "function": "dag_path", "property": "C15", "params": {"length": INT}},
+    {"file": "cnfgen/graphs.py", "function": "dag_complete_binary_tree", "property": "C15", "params": {"height": INT}},
+    {"file": "cnfgen/graphs.py", "function": "dag_pyramid", "property": "C15", "params": {"height": INT}},
 ]
